@@ -425,14 +425,17 @@ pub fn main(args: &util::Args) {
     // ---- hand-written ill-typed witnesses kept as files (corpus/C03/neg/*.gom): typer diagnostics no generated
     // program reaches (tools/coverage_audit.py, class b); each must be rejected by the typer
     {
+        // (a witness is a file, or a project directory `<name>/main.gom` + package sub-directories compiled where it lives)
         let mut files: Vec<_> = std::fs::read_dir(util::verif_root().join("corpus/C03/neg"))
-            .map(|rd| rd.filter_map(|e| e.ok().map(|e| e.path())).filter(|p| p.extension().is_some_and(|x| x == "gom")).collect())
+            .map(|rd| rd.filter_map(|e| e.ok().map(|e| e.path())).filter(|p| p.extension().is_some_and(|x| x == "gom") || p.join("main.gom").is_file()).collect())
             .unwrap_or_default();
         files.sort();
         for f in files {
-            let Ok(src) = std::fs::read_to_string(&f) else { continue };
+            let project = f.is_dir();
+            let entry = if project { f.join("main.gom") } else { f.clone() };
+            let Ok(src) = std::fs::read_to_string(&entry) else { continue };
             let id = format!("illc:{}", f.file_stem().unwrap().to_string_lossy());
-            let st = run_in(&dir, &src);
+            let st = if project { c07::run_stages(&entry, &src, false) } else { run_in(&dir, &src) };
             let (outcome, stage, msg) = match &st.stop {
                 None => ("accepted", "", String::new()),
                 Some((k, stage, m)) => (if *k == "reject" { "rejected" } else { "panic" }, *stage, m.clone()),
